@@ -43,3 +43,8 @@ Definition kind_eqb (a b : kind) : bool :=
   | KArr n, KArr m => Nat.eqb n m
   | _, _ => false
   end.
+
+(* exception names used in statements (so that proof files need not import String) *)
+Definition NotImplementedError : string := "NotImplementedError"%string.
+Definition ValueError : string := "ValueError"%string.
+Definition IndexError : string := "IndexError"%string.
